@@ -12,14 +12,14 @@ import (
 var repoDir, buildDir string
 
 var suitesByProp = map[string][]func(*runner, *rng){
-	"C12": {suiteOrder, suiteMerge},
-	"C09": {suiteAdd},
-	"C14": {suiteForce},
-	"C10": {suiteFragment},
-	"C11": {suiteUnfragment},
-	"C13": {suiteOptimize, suiteTtmlOptimize, suiteStylingParsed},
+	"C12": {suiteOrder, suiteMerge, suiteUnfragmentHuge},
+	"C09": {suiteAdd, suiteAddHuge},
+	"C14": {suiteForce, suiteForceHuge},
+	"C10": {suiteFragment, suiteFragmentHuge},
+	"C11": {suiteUnfragment, suiteUnfragmentHuge},
+	"C13": {suiteOptimize, suiteOptimizeAlias, suiteTtmlOptimize, suiteStylingParsed},
 	"C16": {suiteDur, suiteFracFloat},
-	"C15": {suiteLin},
+	"C15": {suiteLin, suiteLinHuge},
 	"C01": {suiteSrt},
 	"C02": {suiteVtt, suiteVttNeeds},
 	"C04": {suiteSsa, suiteSsaModel},
